@@ -166,12 +166,14 @@ func VerifyCrossChainMsg(native *native.NativeService, chainID uint64, crossChai
 		return fmt.Errorf("verifyCrossChainMsg, header Bookkeepers num %d must more than 2/3 consensus node num %d",
 			len(bookkeepers), len(consensusPeer.PeerMap))
 	}
+	usedPubKey := make(map[string]bool)
 	for _, bookkeeper := range bookkeepers {
 		pubkey := vconfig.PubkeyID(bookkeeper)
 		_, present := consensusPeer.PeerMap[pubkey]
-		if !present {
+		if !present || usedPubKey[pubkey] {
 			return fmt.Errorf("verifyCrossChainMsg, invalid pubkey error:%v", pubkey)
 		}
+		usedPubKey[pubkey] = true
 	}
 	hash := crossChainMsg.Hash()
 	err = signature.VerifyMultiSignature(hash[:], bookkeepers, len(bookkeepers),
